@@ -173,6 +173,9 @@ func TestC07Exhaustive(t *testing.T) {
 			evals++
 			if info.NonTrivial {
 				nt++
+				if nt%50021 == 1 {
+					rec.AddSample(c) // a few of the enumerated pairs, as they come
+				}
 			}
 			if v != nil {
 				path := h.WriteFailure("C07", "match", v, c)
@@ -186,8 +189,6 @@ func TestC07Exhaustive(t *testing.T) {
 	rec.Set("nontrivial_count_exact", nt) // all pairs are distinct by construction
 	rec.Set("patterns", len(pats))
 	rec.Set("names", len(names))
-	rec.AddSample(MatchCase{"a*.", "a\n."})
-	rec.AddSample(MatchCase{"*/+", "a/+"})
 	rec.Exhaustive()
 	rec.Completed()
 }
